@@ -12,19 +12,22 @@ sh('git checkout -q --detach $(git -C /repo rev-parse HEAD) && git checkout -q -
 only = sys.argv[1:]
 built = sorted(f[:-3].upper() for f in os.listdir('/verif/rules') if f.startswith('c') and f[1:3].isdigit())
 res = {}
-for sd in sorted(os.listdir('/verif/seeded')):
-    pid = sd.split('-')[0]
-    if only and pid not in only and sd not in only: continue
+items = [(sd, [sd.split('-')[0]], f'/verif/seeded/{sd}/patch.diff') for sd in sorted(os.listdir('/verif/seeded'))]
+for rd in sorted(os.listdir('/verif/regressions')):
+    items.append((rd, json.load(open(f'/verif/regressions/{rd}/meta.json'))['properties'], f'/verif/regressions/{rd}/patch.diff'))
+for sd, pids, patch in items:
+    pid = pids[0]
+    if only and not (set(pids) & set(only)) and sd not in only: continue
     sh('git checkout -q -- . && git clean -fdq', WT)
-    rc, out = sh(f'git apply /verif/seeded/{sd}/patch.diff', WT)
+    rc, out = sh(f'git apply {patch}', WT)
     if rc: print(sd, 'apply failed', out); continue
     row = {}
     for p in built:
         if p != pid and '--all' not in os.environ.get('SEEDS_MODE', '--all'): continue
         rc, out = sh(f'VERIF_EVIDENCE_DIR=/tmp/seed_evidence /verif/check {p} --repo {WT}', '/verif')
         row[p] = rc
-    own = row.get(pid, '-')
-    others = [f'{p}:{c}' for p, c in row.items() if p != pid and c != 0]
+    own = ','.join(str(row.get(p, '-')) for p in pids)
+    others = [f'{p}:{c}' for p, c in row.items() if p not in pids and c != 0]
     print(f'{sd:8s} own={own} others={",".join(others) or "-"}')
     res[sd] = row
 sh('git checkout -q -- . && git clean -fdq', WT)
